@@ -245,7 +245,11 @@ class PythonExpr(TalesExpr):
     transform = ItemLookupOnAttributeErrorVisitor(transform_attribute)
 
     def parse(self, string):
-        return parse(string, 'eval').body
+        tree = parse(string, 'eval')
+        # Some errors are only found when the tree is compiled (a
+        # repeated keyword argument, ``yield`` outside a function).
+        compile(tree, '<string>', 'eval')
+        return tree.body
 
     def translate(self, expression, target):
         # Strip spaces
